@@ -281,8 +281,15 @@ const unknownAcc = "FFFF"
 
 func balanceUniverse() []sdk.AccAddress {
 	out := []sdk.AccAddress{sdk.AccAddress(reqAcc), sdk.AccAddress(depAcc), sdk.AccAddress(feeColl)}
+	seen := map[string]bool{}
+	for _, a := range out {
+		seen[string(a)] = true
+	}
 	for _, a := range universe() {
-		out = append(out, sdk.AccAddress(a))
+		if !seen[string(a)] { // the module accounts also have names in the universe
+			seen[string(a)] = true
+			out = append(out, sdk.AccAddress(a))
+		}
 	}
 	return out
 }
